@@ -89,8 +89,6 @@ class Ctx:
         if n < minimum:
             # deferred: a violation found elsewhere wins; otherwise the run ends as ANALYSIS-ERROR (never a silent pass)
             self.shortfalls.append(f"{rule}: matched {n} {what}, expected at least {minimum} (anchor moved or idiom not recognised)")
-            if n == 0:
-                raise AnalysisError(self.shortfalls[-1])
 
     # ---- finish
     def finish(self):
